@@ -132,7 +132,7 @@ func c17(c *engine.Ctx) {
 			}
 		}
 	}
-	c.Floor("bigint-divisor", ndiv, 5)
+	c.Floor("bigint-divisor", ndiv, 3)
 	c.Floor("int64-guarded", nconv, 1)
 
 	// ---- (2) no native integer arithmetic ----
@@ -189,19 +189,6 @@ func c17(c *engine.Ctx) {
 		}
 		return nil
 	}
-	isOne := func(e ast.Expr) bool {
-		if call, ok := authdCalleeIs(info, e, "math/big.NewInt"); ok && len(call.Args) == 1 {
-			v, isC := authdConstInt(info, call.Args[0])
-			return isC && v == 1
-		}
-		if o := engine.ObjOf(info, e); o != nil {
-			if a := newIntOf(o); a != nil {
-				v, isC := authdConstInt(info, a)
-				return isC && v == 1
-			}
-		}
-		return false
-	}
 	isUsedVar := func(e ast.Expr) bool {
 		o := engine.ObjOf(info, e)
 		if o == nil {
@@ -229,45 +216,99 @@ func c17(c *engine.Ctx) {
 	// the direction test
 	var incr, decr *ast.BlockStmt
 	var targetObj types.Object
-	engine.InspectBody(calc, func(n ast.Node) {
-		is, ok := n.(*ast.IfStmt)
-		if !ok || incr != nil {
-			return
-		}
-		x, op, y, isCmp := authdCmp(authdFact{E: is.Cond})
-		if !isCmp {
-			return
-		}
-		call, isCall := authdCalleeIs(info, x, c17Big+"Cmp")
-		k, isK := authdConstInt(info, y)
+	// relOf: how `gasUsed` relates to the target when `a.Cmp(b) op k` holds ("" = not such a comparison)
+	relOf := func(cmp ast.Expr, op token.Token, kexp ast.Expr) string {
+		call, isCall := authdCalleeIs(info, cmp, c17Big+"Cmp")
+		k, isK := authdConstInt(info, kexp)
 		if !isCall || !isK || len(call.Args) != 1 {
-			return
+			return ""
 		}
 		se, _ := ast.Unparen(call.Fun).(*ast.SelectorExpr)
 		if se == nil {
-			return
+			return ""
 		}
-		a, b := se.X, call.Args[0] // a.Cmp(b) op k
-		rel := c17Rel(op, k)       // relation a rel b
-		var usedGreater, usedLess bool
+		a, b := se.X, call.Args[0]
+		rel := c17Rel(op, k)
 		switch {
 		case isUsedVar(a) && !isUsedVar(b):
-			usedGreater, usedLess = rel == ">", rel == "<"
 			targetObj = engine.ObjOf(info, b)
+			return rel
 		case isUsedVar(b) && !isUsedVar(a):
-			usedGreater, usedLess = rel == "<", rel == ">"
 			targetObj = engine.ObjOf(info, a)
-		default:
+			return map[string]string{"<": ">", ">": "<", "<=": ">=", ">=": "<=", "==": "==", "!=": "!="}[rel]
+		}
+		return ""
+	}
+	blockOf := func(list []ast.Stmt) *ast.BlockStmt {
+		if len(list) == 0 {
+			return nil
+		}
+		return &ast.BlockStmt{Lbrace: list[0].Pos(), List: list, Rbrace: list[len(list)-1].End()}
+	}
+	engine.InspectBody(calc, func(n ast.Node) {
+		if incr != nil {
 			return
 		}
-		els, _ := is.Else.(*ast.BlockStmt)
-		if els == nil {
-			return
-		}
-		if usedGreater {
-			incr, decr = is.Body, els
-		} else if usedLess {
-			incr, decr = els, is.Body
+		switch st := n.(type) {
+		case *ast.IfStmt:
+			x, op, y, isCmp := authdCmp(authdFact{E: st.Cond})
+			if !isCmp {
+				return
+			}
+			rel := relOf(x, op, y)
+			els, _ := st.Else.(*ast.BlockStmt)
+			if els == nil {
+				return
+			}
+			switch rel {
+			case ">":
+				incr, decr = st.Body, els
+			case "<":
+				incr, decr = els, st.Body
+			case "<=": // used <= target, with equality handled before
+				incr, decr = els, st.Body
+			case ">=":
+				incr, decr = st.Body, els
+			}
+		case *ast.SwitchStmt:
+			// switch used.Cmp(target) { case 0: … case 1: … default: … }  or the tagless form
+			var gt, lt, def *ast.BlockStmt
+			covered := map[string]bool{}
+			for _, cl := range st.Body.List {
+				cc := cl.(*ast.CaseClause)
+				if cc.List == nil {
+					def = blockOf(cc.Body)
+					continue
+				}
+				if len(cc.List) != 1 {
+					return
+				}
+				var rel string
+				if st.Tag != nil {
+					rel = relOf(st.Tag, token.EQL, cc.List[0])
+				} else if x, op, y, isCmp := authdCmp(authdFact{E: cc.List[0]}); isCmp {
+					rel = relOf(x, op, y)
+				}
+				if rel == "" {
+					return
+				}
+				covered[rel] = true
+				switch rel {
+				case ">":
+					gt = blockOf(cc.Body)
+				case "<":
+					lt = blockOf(cc.Body)
+				}
+			}
+			if gt == nil && def != nil && covered["<"] && covered["=="] {
+				gt = def
+			}
+			if lt == nil && def != nil && covered[">"] && covered["=="] {
+				lt = def
+			}
+			if gt != nil && lt != nil {
+				incr, decr = gt, lt
+			}
 		}
 	})
 	if incr == nil || decr == nil {
@@ -301,7 +342,7 @@ func c17(c *engine.Ctx) {
 			}
 			okDir := lastM == br.want && isLastPriceVar(last.Args[0])
 			c.Check("direction", key, last.Pos(), okDir, "the "+br.name+" branch must compute lastPrice "+map[string]string{"Add": "+", "Sub": "-"}[br.want]+" step; found "+lastM)
-			// step = maxBig(_, 1)
+			// step = maxBig(_, 1), possibly computed by a helper all of whose returns are such
 			okStep, why := false, "the step `"+engine.ExprString(last.Args[1])+"` is not the result of maxBig(·, 1): a small difference rounds to 0 and the price does not move"
 			stepE := last.Args[1]
 			if o := engine.ObjOf(info, stepE); o != nil {
@@ -316,7 +357,7 @@ func c17(c *engine.Ctx) {
 					}
 				}
 			}
-			if call, is := authdCalleeIs(info, stepE, A+"maxBig"); is && len(call.Args) == 2 && (isOne(call.Args[0]) || isOne(call.Args[1])) {
+			if c17IsMinStep(p, calc, stepE, 3) {
 				okStep, why = true, "step is maxBig(·, 1)"
 			}
 			c.Check("min-step", key, last.Pos(), okStep, why)
@@ -501,7 +542,7 @@ func c17(c *engine.Ctx) {
 			gates := g.Gates(st)
 			// the innermost gate: the one not dominating any other gate of this return
 			for _, gt := range gates {
-				if !gt.OnTrue || len(engine.Conjuncts(gt.Cond, token.LAND)) != 1 || len(engine.Conjuncts(gt.Cond, token.LOR)) != 1 {
+				if !gt.OnTrue || len(engine.Conjuncts(gt.Full(), token.LAND)) != 1 || len(engine.Conjuncts(gt.Full(), token.LOR)) != 1 {
 					continue
 				}
 				inner := true
@@ -513,7 +554,7 @@ func c17(c *engine.Ctx) {
 				if !inner {
 					continue
 				}
-				l, op, r, isCmp := authdCmp(authdFact{E: gt.Cond})
+				l, op, r, isCmp := authdCmp(authdFact{E: gt.Full()})
 				if !isCmp || op != token.EQL {
 					continue
 				}
@@ -591,22 +632,16 @@ func c17(c *engine.Ctx) {
 			c.Check("update-flow", upd.Name, s.Pos(), ok, why)
 		}
 		allowed := []string{A + "(GasPriceKeeper).UpdateGasPrice", A + "InitChainer"}
-		callers := engine.CallerSet(p.RefsToFunc(A+"(GasPriceKeeper).SetGasPrice", A+"(GasPriceKeeperI).SetGasPrice"))
-		var prod []string
-		for _, x := range callers {
-			if !strings.Contains(x, "test_common") {
-				prod = append(prod, x)
-			}
-		}
-		extra := engine.SetDiff(prod, allowed)
-		c.Check("who-sets-price", A+"SetGasPrice", token.NoPos, len(extra) == 0 && len(prod) >= 1, "callers: "+join(prod)+"; not in the frozen table: "+join(extra))
-		// who reaches InitChainer / the store key
-		keyRefs := engine.CallerSet(p.RefsTo(func(o types.Object) bool {
+		setRefs := p.RefsToFunc(A+"(GasPriceKeeper).SetGasPrice", A+"(GasPriceKeeperI).SetGasPrice")
+		extra := p.UnexpectedCallers(setRefs, allowed)
+		c.Check("who-sets-price", A+"SetGasPrice", token.NoPos, len(extra) == 0 && len(setRefs) >= 1, "callers: "+join(engine.CallerSet(setRefs))+"; neither in the frozen table nor private helpers of its members: "+join(extra))
+		// the store key
+		keyRefs := p.RefsTo(func(o types.Object) bool {
 			k, ok := o.(*types.Const)
 			return ok && k.Pkg() != nil && engine.Rel(k.Pkg().Path()) == "tm2/pkg/sdk/auth" && k.Name() == "GasPriceKey"
-		}))
-		extraK := engine.SetDiff(keyRefs, []string{A + "(GasPriceKeeper).SetGasPrice", A + "(GasPriceKeeper).LastGasPrice"})
-		c.Check("who-sets-price", A+"GasPriceKey", token.NoPos, len(extraK) == 0 && len(keyRefs) == 2, "functions using the store key: "+join(keyRefs))
+		})
+		extraK := p.UnexpectedCallers(keyRefs, []string{A + "(GasPriceKeeper).SetGasPrice", A + "(GasPriceKeeper).LastGasPrice"})
+		c.Check("who-sets-price", A+"GasPriceKey", token.NoPos, len(extraK) == 0 && len(keyRefs) >= 1, "functions using the store key: "+join(engine.CallerSet(keyRefs)))
 	}
 
 	// the Params type assertion is fed by gnoland.EndBlocker
@@ -677,7 +712,7 @@ func c17GateCallees(s *engine.Site) string {
 		if !inner {
 			continue
 		}
-		ast.Inspect(gt.Cond, func(n ast.Node) bool {
+		ast.Inspect(gt.Full(), func(n ast.Node) bool {
 			if call, ok := n.(*ast.CallExpr); ok {
 				if nm := authdCalleeName(s.Fn.Info(), call); nm != "" {
 					names = append(names, authdShort(nm))
@@ -735,24 +770,10 @@ func c17DivisorNonZero(c *engine.Ctx, p *engine.Prog, f *engine.Fn, g *engine.Gr
 			if v, isC := authdConstInt(info, a); isC {
 				return v != 0, "constant divisor " + strconv.FormatInt(v, 10)
 			}
-			src := a
-			if o := engine.ObjOf(info, a); o != nil {
-				if _, isSel := ast.Unparen(a).(*ast.SelectorExpr); !isSel {
-					defs := authdAssignsTo(f, o)
-					if len(defs) != 1 || defs[0] == nil {
-						return false, "divisor variable " + o.Name() + " has no single definition"
-					}
-					src = defs[0]
-				}
-			}
-			if se, isSel := ast.Unparen(src).(*ast.SelectorExpr); isSel {
-				if fld, isF := info.ObjectOf(se.Sel).(*types.Var); isF && fld.IsField() {
-					if ok, why := c17ValidatedPositive(p, fld); ok {
-						return true, "divisor is Params." + fld.Name() + ", " + why
-					} else {
-						return false, "divisor is field " + fld.Name() + " which " + why
-					}
-				}
+			if ok, why := c17PositiveSource(p, f, a, 3); ok {
+				return true, why
+			} else if why != "" {
+				return false, why
 			}
 			return false, "divisor `" + engine.ExprString(d) + "` is neither a non-zero constant nor a validated parameter"
 		}
@@ -763,7 +784,8 @@ func c17DivisorNonZero(c *engine.Ctx, p *engine.Prog, f *engine.Fn, g *engine.Gr
 		return false, "divisor `" + engine.ExprString(d) + "` is not recognised"
 	}
 	// never used as the receiver of a mutating big.Int method, single definition
-	if defs := authdAssignsTo(f, o); len(defs) != 1 {
+	_, isParam := c44IsParam(f, o)
+	if defs := authdAssignsTo(f, o); !(len(defs) == 1 && !isParam) && !(len(defs) == 0 && isParam) {
 		return false, "divisor variable " + o.Name() + " is assigned more than once"
 	}
 	mut := false
@@ -939,4 +961,138 @@ func c17ParamsFed(c *engine.Ctx, p *engine.Prog, upd *engine.Fn) {
 		}
 	}
 	c.Floor("params-fed", n, 1)
+}
+
+// c17IsOne: e is big.NewInt(1) or a single-definition local holding it.
+func c17IsOne(f *engine.Fn, e ast.Expr) bool {
+	info := f.Info()
+	e = authdResolveLocal(f, e)
+	if call, ok := authdCalleeIs(info, e, "math/big.NewInt"); ok && len(call.Args) == 1 {
+		v, isC := authdConstInt(info, call.Args[0])
+		return isC && v == 1
+	}
+	return false
+}
+
+// c17IsMinStep: e evaluates to maxBig(x, 1) — directly, or through a
+// package-local helper every return of which does.
+func c17IsMinStep(p *engine.Prog, f *engine.Fn, e ast.Expr, depth int) bool {
+	info := f.Info()
+	e = authdResolveLocal(f, e)
+	call, ok := ast.Unparen(e).(*ast.CallExpr)
+	if !ok {
+		return false
+	}
+	nm := authdCalleeName(info, call)
+	if nm == "tm2/pkg/sdk/auth.maxBig" && len(call.Args) == 2 {
+		return c17IsOne(f, call.Args[0]) || c17IsOne(f, call.Args[1])
+	}
+	if depth <= 0 {
+		return false
+	}
+	st := f.SiteOf(call)
+	if st == nil {
+		return false
+	}
+	fn, _ := st.Callee.(*types.Func)
+	h := p.FnOf(fn)
+	if h == nil {
+		return false
+	}
+	rets := authdReturns(h)
+	if len(rets) == 0 {
+		return false
+	}
+	for _, rs := range rets {
+		if len(rs.Results) != 1 || !c17IsMinStep(p, h, rs.Results[0], depth-1) {
+			return false
+		}
+	}
+	return true
+}
+
+// c17ArgSources resolves parameter o of f to the argument expressions (with the
+// function they live in) at every call site of f in the loaded program.
+type c17Src struct {
+	f *engine.Fn
+	e ast.Expr
+}
+
+func c17ArgSources(p *engine.Prog, f *engine.Fn, o types.Object) []c17Src {
+	idx := -1
+	for i, q := range authdOperands(f) {
+		if q == o {
+			idx = i
+		}
+	}
+	if idx < 0 || f.Obj == nil {
+		return nil
+	}
+	if f.Decl.Recv != nil {
+		idx--
+	}
+	var out []c17Src
+	for _, r := range p.RefsToFunc(f.Name) {
+		if !r.IsCall || r.Fn == nil {
+			return nil
+		}
+		var site *engine.Site
+		for _, s := range r.Fn.Calls() {
+			if fn, ok := s.Callee.(*types.Func); ok && engine.FuncName(fn) == f.Name && containsExpr(s.Call, r.Ident) {
+				site = s
+			}
+		}
+		if site == nil || idx < 0 || idx >= len(site.Call.Args) {
+			return nil
+		}
+		out = append(out, c17Src{r.Fn, site.Call.Args[idx]})
+	}
+	return out
+}
+
+// c17PositiveSource: the int64 expression e is a Params field that
+// Params.Validate forces > 0 — directly, through a single-definition local, or
+// (when e is a parameter of a helper) at every call site.
+func c17PositiveSource(p *engine.Prog, f *engine.Fn, e ast.Expr, depth int) (bool, string) {
+	info := f.Info()
+	e = ast.Unparen(e)
+	if se, isSel := e.(*ast.SelectorExpr); isSel {
+		if fld, isF := info.ObjectOf(se.Sel).(*types.Var); isF && fld.IsField() {
+			if ok, why := c17ValidatedPositive(p, fld); ok {
+				return true, "divisor is Params." + fld.Name() + ", " + why
+			} else {
+				return false, "divisor is field " + fld.Name() + " which " + why
+			}
+		}
+	}
+	o := engine.ObjOf(info, e)
+	if _, isID := e.(*ast.Ident); !isID || o == nil || depth <= 0 {
+		return false, ""
+	}
+	if _, isParam := c44IsParam(f, o); isParam {
+		if len(authdAssignsTo(f, o)) != 0 {
+			return false, "divisor parameter " + o.Name() + " is reassigned"
+		}
+		srcs := c17ArgSources(p, f, o)
+		if len(srcs) == 0 {
+			return false, "divisor is parameter " + o.Name() + " of " + f.Name + " whose callers cannot be enumerated"
+		}
+		why := ""
+		for _, sr := range srcs {
+			ok, w := c17PositiveSource(p, sr.f, sr.e, depth-1)
+			if !ok {
+				if w == "" {
+					w = "argument `" + engine.ExprString(sr.e) + "` in " + sr.f.Name + " is neither a non-zero constant nor a validated parameter"
+				}
+				return false, w
+			}
+			why = w
+		}
+		return true, why + " (through parameter " + o.Name() + ")"
+	}
+	defs := authdAssignsTo(f, o)
+	if len(defs) != 1 || defs[0] == nil {
+		return false, "divisor variable " + o.Name() + " has no single definition"
+	}
+	return c17PositiveSource(p, f, defs[0], depth-1)
 }
